@@ -342,6 +342,7 @@ func (e *skEnv) stmt(st ast.Stmt, inLoop bool, assigned *[]string) ([]string, er
 
 func genSortKeys(repo, out string) error {
 	s := tiNew(repo)
+	s.norm.keepIntShort = true // getSortedKeys declares its counter as `index := 0`
 	const file = "cache.go"
 	f, err := s.parse(file)
 	if err != nil {
